@@ -48,7 +48,20 @@ def run(ctx):
             got = value_of_run(ri)
             if got is None or (want is not None and got != want):
                 ctx.fail('oracle', r, impl=ri[:300], model=None, expect=want, note=f'literal program {vlib.unesc(r[3])!r} on {r[2]} does not evaluate to what it spells')
-    ctx.oblige('suite LIT.number+chars+bytes+symbol (implementation = Lean literal model)', 'suite', dis == 0 and drv_ok, f'{dis} disagreement(s)')
+    # a symbol keeps the name it was written with: the name table of each store is read back (SimpleGarnishData::get_symbols,
+    # BasicGarnishData::get_symbol_string) after parse_add_symbol
+    srows = [['SYMNAME', 'n' + r[1], r[3]] for r in lit_rows if r[2] == 'symbol']
+    if srows:
+        sn = vlib.run_impl(srows, 'c14sym', per_case_s=5.0)
+        for r in srows:
+            want = vlib.unesc(r[2])[1:]
+            got = sn.get(r[1], 'missing')
+            exps = f'simple={vlib.esc(want)} basic={vlib.esc(want)}'
+            kinds['SYMNAME'] = kinds.get('SYMNAME', 0) + 1
+            if got != exps:
+                ctx.fail('oracle', r, impl=got[:300], model=None, expect=exps, note=f'the symbol {vlib.unesc(r[2])!r} does not keep the name it was written with (name table read back)')
+        ctx.evaluations += len(srows)
+    ctx.oblige('suite LIT.number+chars+bytes+symbol (implementation = Lean literal model', 'suite', dis == 0 and drv_ok, f'{dis} disagreement(s)')
     ctx.rule = ('LIT rows (the literal parsers directly, both stores) and RUN rows (the literal as a one-literal program through lex, parse, build, execute on SimpleGarnishData and BasicGarnishData): boundary and random non-negative i32 in every radix 2..36 with random `_` placement, '
                 'random finite floats in positional shortest form, all strings up to length 3 (quick) / 4 (thorough) over {a, ", \\\\, newline, tab, é, €, 😀} in 1-, 3- and 4-quote forms with the three escaping strategies, random longer ones, all byte vectors up to length 2 in numeric form, quoted byte lists incl. multi-byte characters, symbols; two or three literals of equal magnitude but different type in one program (9, 9.0; "a", \'a\'; 016_ff, 255, 255.0) so that interning in a shared data object cannot substitute one for another; '
                 'each checked against the value the spelling functions (mirrors of Spec/Spell.lean) say it denotes, and the parsers against the Lean model; distinct = distinct (suite, kind/store, text).')
